@@ -21,6 +21,8 @@ pub mod ctl {
         /// the operation with this index, if it is a write, stores only the given number of bytes and then
         /// fails (a disk that fills up); any other kind of operation at this index simply fails
         pub partial: Option<(usize, usize)>,
+        /// indices in the sequence of UNLOGGED metadata queries (directory-walk entries, `File::metadata`) that fail
+        pub meta_faults: Vec<usize>,
     }
 
     pub struct State {
@@ -28,6 +30,7 @@ pub mod ctl {
         pub log: Vec<String>,
         pub ops: usize,
         pub mutating: usize,
+        pub metas: usize,
     }
 
     pub static STATE: Mutex<Option<State>> = Mutex::new(None);
@@ -37,7 +40,7 @@ pub mod ctl {
     }
 
     pub fn install(config: Config) {
-        *STATE.lock().unwrap_or_else(|e| e.into_inner()) = Some(State { config, log: Vec::new(), ops: 0, mutating: 0 });
+        *STATE.lock().unwrap_or_else(|e| e.into_inner()) = Some(State { config, log: Vec::new(), ops: 0, mutating: 0, metas: 0 });
     }
 
     /// removes the controller and returns its log
@@ -185,6 +188,27 @@ pub mod fs {
         result
     }
 
+    /// numbering and fault injection for metadata queries that are not part of the operation log
+    fn meta_fault() -> Option<io::Error> {
+        let mut guard = ctl::STATE.lock().unwrap_or_else(|e| e.into_inner());
+        let state = guard.as_mut()?;
+        let index = state.metas;
+        state.metas += 1;
+        if state.config.meta_faults.contains(&index) {
+            state.log.push(format!("meta {} err", index));
+            return Some(injected(index));
+        }
+        None
+    }
+
+    /// metadata of a directory-walk entry
+    pub fn entry_metadata(entry: &walkdir::DirEntry) -> io::Result<std::fs::Metadata> {
+        if let Some(error) = meta_fault() {
+            return Err(error);
+        }
+        entry.metadata().map_err(io::Error::from)
+    }
+
     pub fn metadata<P: AsRef<Path>>(path: P) -> io::Result<std::fs::Metadata> {
         let path = path.as_ref();
         controlled(Kind::Stat, path, || std::fs::metadata(path), |_| ())
@@ -248,6 +272,9 @@ pub mod fs {
         }
 
         pub fn metadata(&self) -> io::Result<std::fs::Metadata> {
+            if let Some(error) = meta_fault() {
+                return Err(error);
+            }
             self.inner.metadata()
         }
 
